@@ -156,6 +156,28 @@ type Built struct {
 	// identity was created (NewIdentity, then every Mutate): the logical time at which that version
 	// was made, taken independently of what the version itself recorded
 	Clock []uint64
+	// refs of repository A at the early point: the author's identity in its first version, the bug
+	// with its first two commits (no key declared yet); everything else comes later
+	Early map[string]string
+}
+
+// gitBugRefs lists refs/bugs and refs/identities of a repository.
+func gitBugRefs(repo repository.RepoData) (map[string]string, error) {
+	out := map[string]string{}
+	for _, prefix := range []string{"refs/bugs/", "refs/identities/"} {
+		names, err := repo.ListRefs(prefix)
+		if err != nil {
+			return nil, err
+		}
+		for _, n := range names {
+			h, err := repo.ResolveRef(n)
+			if err != nil {
+				return nil, err
+			}
+			out[n] = string(h)
+		}
+	}
+	return out, nil
 }
 
 // editClock reads the current value of the repository's bug edit clock (0 when it does not exist yet).
@@ -251,6 +273,9 @@ func Build(dir string, keys Keys, history []string, pos Position, signer string,
 	}
 	out := &Built{Dir: filepath.Join(dir, "A"), Bug: b.Id(), Author: alice.Id()}
 	defer func() { out.Clock = recorded }()
+	if out.Early, err = gitBugRefs(repo); err != nil {
+		return nil, err
+	}
 
 	// who signs: decided once the key sets are known
 	var sets [][]string // key set of version j
@@ -839,7 +864,11 @@ func packAuthor(repo repository.RepoData, treeHash repository.Hash) (string, err
 }
 
 // Expect evaluates the reference on the stored data: every commit of the bug must be acceptable.
-func Expect(b *Built) (Expected, error) {
+func Expect(b *Built) (Expected, error) { return ExpectKnowing(b, -1) }
+
+// ExpectKnowing is Expect for a reader that knows only the first `known` versions of the author's
+// identity (known < 0: all of them).
+func ExpectKnowing(b *Built, known int) (Expected, error) {
 	repo, err := repository.OpenGoGitRepo(b.Dir, world.Namespace, nil)
 	if err != nil {
 		return Expected{}, err
@@ -865,6 +894,10 @@ func Expect(b *Built) (Expected, error) {
 		}
 	} else {
 		return exp, fmt.Errorf("%d versions stored, %d created", len(versions), len(b.Clock))
+	}
+	if known >= 0 && known < len(versions) {
+		versions = versions[:known]
+		exp.Stored = exp.Stored[:known]
 	}
 	for i, v := range versions {
 		exp.Times = append(exp.Times, v.Time)
